@@ -4,7 +4,7 @@ import "testing"
 
 func TestSelfTestFixtures(t *testing.T) {
 	problems, n := SelfTest()
-	if n < 28 {
+	if n < 30 {
 		t.Errorf("only %d fixture functions analysed", n)
 	}
 	for _, p := range problems {
